@@ -100,12 +100,20 @@ Definition s_space : str := [32].
 Definition prop_string (p : str) (vs : list str) : str :=
   p ++ [61; 34] ++ join s_semicolon (sort_strs vs) ++ [34].
 
+(* `val in _OFF_VALUES`: the property is explicitly switched off *)
+Definition is_off (val : option str) : bool :=
+  match val with
+  | Some s => existsb (str_eqb s) off_values
+  | None => false
+  end.
+
 Definition format_Pr_into_html (pr : list (str * option str)) (x2h : xml2html)
   : res (list str) :=
   cp <- foldM (fun d kv =>
                  match dict_get (fst kv) x2h with
                  | None => Ok d
                  | Some hf =>
+                     if is_off (snd kv) then Ok d else
                      s <- eval_fexpr (hf_expr hf) (fst kv) (ostr (snd kv)) ;;
                      Ok (cp_add (hf_container hf, hf_property hf) s d)
                  end) pr [] ;;
